@@ -485,7 +485,12 @@ where
     #[inline]
     async fn on_heartbeat(&mut self) -> Result<Running, ConnectionInnerError> {
         match &self.connection.local_state() {
-            ConnectionState::Start | ConnectionState::CloseSent => return Ok(Running::Continue),
+            // Nothing is sent before the header exchange nor after the close frame
+            ConnectionState::Start
+            | ConnectionState::CloseSent
+            | ConnectionState::ClosePipe
+            | ConnectionState::OpenClosePipe
+            | ConnectionState::Discarding => return Ok(Running::Continue),
             ConnectionState::End => return Ok(Running::Stop),
             _ => {}
         }
